@@ -17,7 +17,7 @@ def run(ck):
     sys_eval = ck.stats.get("direct_clauses_evaluated", 0)
     sys_scn = ck.stats.get("scenarios", 0)
     if ck.build_harness("brokerconn"):
-        os.environ["BC_FAMILY"] = "c08" if ck.tier == "quick" else "all"
+        os.environ["BC_FAMILY"] = "c20,c16,c12" if ck.tier == "quick" else "all"
         path, _ = ck.harness("bc")
         lines = ck.model("brokerconn", "bc", path)
         traces = {}
@@ -32,6 +32,34 @@ def run(ck):
                 ck.fail_input(f[2], l, traces.get(f[1], []))
         if diffs and not ck.violations:
             ck.fail_unwitnessed("correspondence coq/Broker/Conn.v ~ broker/client.go: %d observed traces rejected" % len(diffs), diffs[:5])
+    # session stage: PacketStore.All lists in first-save order (exact order compared with Session/Store.v)
+    if ck.build_harness("session"):
+        tpath, _ = ck.harness("c18", out_name="c18_for_c15.txt")
+        tlines = ck.model("session", "c15store", tpath)
+        hist = {}
+        for l in open(tpath).read().splitlines():
+            if l.startswith("hist "):
+                hist[l.split(" ", 2)[1]] = l
+        for l in tlines:
+            if l.startswith("propfail hist ") or l.startswith("diff hist "):
+                ck.fail_input("store_order", l, [hist.get(l.split()[2], ""), l])
+    # service stage: commands are dispatched first-in first-out (client.Service, monitor Client/Service.v)
+    if ck.build_harness("service"):
+        spath, _ = ck.harness("c17", out_name="c17_for_c15.txt")
+        slines = ck.model("service", "c17", spath)
+        sex = open(spath).read().splitlines()
+        per = {}
+        for l in sex:
+            w = l.split(" ", 2)
+            if len(w) >= 2 and w[0] in ("scn", "ev", "peer", "futfinal", "end"):
+                per.setdefault(w[1], []).append(l)
+        for l in sex:
+            if l.startswith("direct fifo") and " FAIL" in l:
+                ck.fail_input("service_fifo", l, per.get(l.split()[2], [])[:300] + [l])
+        for l in slines:
+            w = l.split()
+            if l.startswith("propfail ") and w[2] == "fifo":
+                ck.fail_input("service_fifo", l, per.get(w[1], [])[:300] + [l])
     if ck.tier == "thorough":
         ck.coqchk(["GM.Props.C15"])
     ck.evaluations = sys_eval + ck.stats.get("model_cases", 0)
@@ -41,4 +69,5 @@ def run(ck):
     ck.rule = ("whole broker: 1..8 publishers sending numbered messages at each QoS to overlapping topics, 1..4 subscribers with differing granted "
                "QoS, windows 1..10, one subscriber cut with 2..window messages unacknowledged and resumed: per (publisher, QoS, delivery QoS) "
                "sequence numbers increase, retransmitted (dup) ids keep their original order, no QoS 2 message offered twice as new; plus clauses "
-               "c15_in_order, c15_release_intact, c15_resend_order, c15_dequeue_order on broker-connection traces")
+               "c15_in_order, c15_release_intact, c15_resend_order, c15_dequeue_order on broker-connection traces; plus the fifo clause of the "
+               "service monitor on the service scenarios (client.Service command queue)")
